@@ -164,12 +164,8 @@ def parseGateWithInverse (j : Json) : Except String (Instr GQ × Instr GQ) := do
   let (ni, _, gi) ← parseDense (← field j "ginv")
   return (.gate ps nr g, .gate ips ni gi)
 
-/-- `circuit.inverse {fields, gates:[{particles,g,iparticles,ginv}]}` ↦ the matrices of `C`, of `C.inverse()` (reversed list of the
-inverses) and their product `C.inverse().as_matrix(fields) @ C.as_matrix(fields)` -/
-def opCircuitInverse (j : Json) : Except String Json := do
-  let fields ← (← fList j "fields").mapM parseField
-  let gs ← (← fList j "gates").mapM parseGateWithInverse
-  let rb := optRound j
+/-- matrices of `C`, of `C.inverse()` (the model's `circuitInverse`: reversed list of the inverses) and their product -/
+def circuitInverseReply (fields : List FieldSpec) (rb : Option Nat) (gs : List (Instr GQ × Instr GQ)) : Json :=
   let c := gs.map Prod.fst
   -- `inverse()` of the k-th gate object is the value the implementation reported for it
   let ci := (circuitInverse (fun (p : Instr GQ × Instr GQ) => (p.2, p.1)) gs).map Prod.fst
@@ -178,7 +174,32 @@ def opCircuitInverse (j : Json) : Except String Json := do
   let prod : Json := match M, Mi with
     | .ok A, .ok B => Json.mkObj [("mat", dmatJson rb (DMat.mul B A))]
     | _, _ => Json.null
-  return Json.mkObj [("c", matOrRaised rb M), ("ci", matOrRaised rb Mi), ("prod", prod), ("len", .num (JsonNumber.fromNat ci.length))]
+  Json.mkObj [("c", matOrRaised rb M), ("ci", matOrRaised rb Mi), ("prod", prod), ("len", .num (JsonNumber.fromNat ci.length))]
+
+/-- `circuit.inverse {fields, gates:[{particles,g,iparticles,ginv}]}` ↦ the matrices of `C`, of `C.inverse()` and their product
+`C.inverse().as_matrix(fields) @ C.as_matrix(fields)`; with `steps: [[gate…]…]` instead of `gates`: the same for every state of a
+circuit object that is edited between calls of `inverse()` (the model is a pure function of the current gate list) -/
+def opCircuitInverse (j : Json) : Except String Json := do
+  let fields ← (← fList j "fields").mapM parseField
+  let rb := optRound j
+  match fList j "steps" with
+  | .ok steps =>
+    let rs ← steps.mapM fun st => do
+      let gs ← (← list st).mapM parseGateWithInverse
+      return circuitInverseReply fields rb gs
+    return Json.mkObj [("steps", .arr rs.toArray)]
+  | .error _ =>
+    let gs ← (← fList j "gates").mapM parseGateWithInverse
+    return circuitInverseReply fields rb gs
+
+/-- `sim.statevector {fields, gates}` ↦ `StatevectorSimulator().run(Circuit(gates))` (fields = `circ.fields()`, passed by the harness) -/
+def opStatevector (j : Json) : Except String Json := do
+  let fields ← (← fList j "fields").mapM parseField
+  let instrs ← (← fList j "gates").mapM parseInstr
+  let rb := optRound j
+  match svRun fields instrs with
+  | .error e => return raised e
+  | .ok psi => return Json.mkObj [("psi", .arr (psi.toArray.map (gqOut rb)))]
 
 def parseOp (j : Json) : Except String (Op (Instr GQ)) :=
   match j with
